@@ -41,16 +41,17 @@ macro_rules! extend_one {
                     vassert!($eq, $lbl, ".appending_a_byte_leaves_the_value_unchanged");
                     vassert!(rem2.as_ptr() == rem1.as_ptr() && rem2.len() == rem1.len() + 1, $lbl, ".appending_a_byte_only_extends_the_remainder");
                     vassert!(inside(&buf[..], rem1, l) && off(&buf[..], rem1) + rem1.len() == l, $lbl, ".remainder_is_a_suffix_of_the_input");
-                    vcover!(rem1.len() > 0, $lbl, ".cover.ok_with_remainder");
-                    vcover!(rem1.len() == 0, $lbl, ".cover.ok_exact");
+                    vcover!(rem1.len() > 0, "C06.cover.ok_with_remainder");
+                    vcover!(rem1.len() == 0, "C06.cover.ok_exact");
                 }
                 (Ok(_), Err(_)) => vassert!(false, $lbl, ".success_survives_appended_bytes"),
                 (Err(Err::Error(_)), r) | (Err(Err::Failure(_)), r) => {
                     vassert!(r.is_err() && class(&*r2) == class(&*r1), $lbl, ".an_error_never_becomes_a_value_by_appending_bytes");
-                    vcover!(true, $lbl, ".cover.error_stays_error");
+                    vcover!(true, "C06.cover.error_stays_error");
                 }
                 (Err(Err::Incomplete(_)), _) => {
-                    vcover!(r2.is_ok(), $lbl, ".cover.incomplete_then_ok");
+                    vcover!(r2.is_ok(), "C06.cover.incomplete_then_ok");
+                    vcover!(r2.is_err(), "C06.cover.incomplete_stays_err");
                 }
             }
         }
@@ -108,13 +109,13 @@ macro_rules! extend_one_fixed {
                 (Ok((rem1, $a)), Ok((rem2, $b))) => {
                     vassert!($eq, $lbl, ".appending_a_byte_leaves_the_value_unchanged");
                     vassert!(rem2.as_ptr() == rem1.as_ptr() && rem2.len() == rem1.len() + 1, $lbl, ".appending_a_byte_only_extends_the_remainder");
-                    vcover!(true, $lbl, ".cover.ok");
+                    vcover!(true, "C06.cover.ok_fixed_shape");
                 }
                 (Ok(_), Err(_)) => vassert!(false, $lbl, ".success_survives_appended_bytes"),
                 (Err(_), r) => {
                     // the declared length is contained in both inputs: the outcome class must not change
                     vassert!(r.is_err(), $lbl, ".outcome_class_fixed_once_declared_length_is_present");
-                    vcover!(true, $lbl, ".cover.error_stays_error");
+                    vcover!(true, "C06.cover.error_stays_error");
                 }
             }
         }
